@@ -573,7 +573,7 @@ func (u *Unit) heapGet(st *State, name, valSort string) string {
 		// a field array first touched after `modifies object x`: x's cell is arbitrary here too
 		touched := false
 		for i, r := range st.objHavoc {
-			if mayOwn(name, st.objHavocT[i]) && u.eng.methodMayWrite(name) {
+			if mayOwn(name, st.objHavocT[i]) && (!isIface(st.objHavocT[i]) || u.eng.methodMayWrite(name)) {
 				d = app("store", d, r, u.d.fresh("objhavoc", u.eng.heapSorts[name]))
 				touched = true
 			}
@@ -590,7 +590,7 @@ func (u *Unit) heapGet(st *State, name, valSort string) string {
 func (u *Unit) havocObject(st *State, ref string, static types.Type) {
 	var names []string
 	for n := range st.heap {
-		if strings.HasPrefix(n, "H!") && mayOwn(n, static) && u.eng.methodMayWrite(n) {
+		if strings.HasPrefix(n, "H!") && mayOwn(n, static) && (!isIface(static) || u.eng.methodMayWrite(n)) {
 			names = append(names, n)
 		}
 	}
